@@ -130,3 +130,81 @@ Theorem C03_dimacs_strict_header_witness :
   doc_ok false KCnf max_dimacs_i32 w_count = false /\ doc_ok true KCnf max_dimacs_i32 w_count = true.
 Proof. exact clause_count_is_enforced. Qed.
 Print Assumptions C03_dimacs_strict_header_witness.
+
+(* AIGER, whole files, both formats (Aiger.v: the two parser programs; AigerWrite.v: ascii::Writer::write_aig and
+   binary::Writer::write_ordered_aig as functions, both tied to the code by the pa stream, flags 'x': the bytes the
+   crate's writers produce for every parsed value; AigerRt.v).  Parsing what the writer wrote gives the value back:
+   the simple run of the whole parser on the written bytes, delivered by a source that ends cleanly, returns the
+   header, exactly the items of the value and a clean end, and the whole-file API (`Parser::parse`) returns the value.
+   Domain (aag_ok / aig_ok, the values the parsers can return):
+     counts_ok   1 <= MAX_CODE < 2^64, M <= (MAX_CODE - 1) / 2, I + L + A <= M, the header's counts are the lengths
+                 of the vectors and fit usize;
+     literals    <= 2 M + 1 (lit_ok); defining literals (inputs, latch states, gate outputs) moreover non-zero and
+                 even (def_ok) — the parser asks for nothing more (not for distinctness);
+     justice     the sizes add up to less than 2^64;
+     symbols     index below the count of its section and below 2^64, name without LF and valid UTF-8 (sym_ok);
+     comment     valid UTF-8 (cmt_ok);
+     ascii       latch states and gate outputs present (latch_aag_ok, and_aag_ok);
+     binary      no input vector, latches and gates without own literal, gate inputs in the writer's order
+                 rhs0 >= rhs1, rhs0 not above the gate's own code, both deltas below 2^56 (oands_ok), and
+                 2 (I + L + A + 1) < 2^64: the writer's `(input_count + 1) * 2` and `code += 2` do not overflow. *)
+From Flussab Require Import Aiger AigerProofs AigerWrite AigerRt.
+
+Theorem C03_aag_roundtrip : forall (fuel : nat) (maxc : N) (a : aig),
+  aag_ok maxc a -> (length (write_aag a) < fuel)%nat ->
+  exists s' v',
+    srun (parse_aag fuel maxc lrs_init) (view_init (write_aag a) None) = ADone ((Some (g_header a), aag_items a, FOk), s') v' /\
+    Aiger.whole_file (Some (g_header a), aag_items a, FOk) = Ok a.
+Proof. exact aag_roundtrip_final. Qed.
+Print Assumptions C03_aag_roundtrip.
+
+Theorem C03_aig_roundtrip : forall (fuel : nat) (maxc : N) (a : aig),
+  aig_ok maxc a -> (length (write_aig a) < fuel)%nat ->
+  exists s' v',
+    srun (parse_aig fuel maxc lrs_init) (view_init (write_aig a) None) = ADone ((Some (g_header a), aig_items a, FOk), s') v' /\
+    Aiger.whole_file (Some (g_header a), aig_items a, FOk) = Ok a /\
+    write_aig_checked a = WrOk (write_aig a).
+Proof. exact aig_roundtrip_final. Qed.
+Print Assumptions C03_aig_roundtrip.
+
+(* the two domains, one level unfolded *)
+Theorem C03_aag_domain : forall maxc a,
+  aag_ok maxc a =
+  (counts_ok maxc a /\ a_inputs (g_header a) = nlen (g_inputs a) /\
+   Forall (def_ok (a_max_var (g_header a))) (g_inputs a) /\
+   Forall (latch_aag_ok (a_max_var (g_header a))) (g_latches a) /\ middle_ok (a_max_var (g_header a)) a /\
+   Forall (and_aag_ok (a_max_var (g_header a))) (g_ands a) /\
+   Forall (sym_ok (g_header a)) (g_symbols a) /\ cmt_ok (g_comment a)).
+Proof. reflexivity. Qed.
+Print Assumptions C03_aag_domain.
+
+Theorem C03_aig_domain : forall maxc a,
+  aig_ok maxc a =
+  (counts_ok maxc a /\ g_inputs a = [] /\
+   2 * (a_inputs (g_header a) + nlen (g_latches a) + nlen (g_ands a) + 1) < 2 ^ 64 /\
+   Forall (olatch_ok (a_max_var (g_header a))) (g_latches a) /\ middle_ok (a_max_var (g_header a)) a /\
+   oands_ok ((a_inputs (g_header a) + 1) * 2 + 2 * nlen (g_latches a)) (g_ands a) /\
+   Forall (sym_ok (g_header a)) (g_symbols a) /\ cmt_ok (g_comment a)).
+Proof. reflexivity. Qed.
+Print Assumptions C03_aig_domain.
+
+(* intermediate results: the header with its trailing zero fields dropped, read back by Header::parse;
+   one and gate of the binary format (two deltas) *)
+Theorem C03_aiger_header_roundtrip : forall (fuel : nat) (S : bytes),
+  Forall (fun b => b < 256) S -> (length S < fuel)%nat ->
+  forall x y z maxc m i l o a b c j f,
+  m <= (maxc - 1) / 2 -> i <= m -> l <= m - i -> a <= m - i - l ->
+  m < 2 ^ 64 -> o < 2 ^ 64 -> b < 2 ^ 64 -> c < 2 ^ 64 -> j < 2 ^ 64 -> f < 2 ^ 64 ->
+  lrd S (parse_aheader fuel [x; y; z] maxc) (w_header [x; y; z] m i l o a b c j f) (Ok (mk_header m i l o a b c j f)).
+Proof. exact header_hit. Qed.
+Print Assumptions C03_aiger_header_roundtrip.
+
+(* non-vacuity: a circuit with every kind of entry, written and parsed, both formats *)
+Example C03_aiger_example :
+  (aag_ok 255 ex_aag /\
+   match srun (parse_aag 300 255 lrs_init) (view_init (write_aag ex_aag) None) with
+   | ADone (r, _) _ => Aiger.whole_file r = Ok ex_aag | _ => False end) /\
+  (aig_ok 255 ex_aig /\
+   match srun (parse_aig 300 255 lrs_init) (view_init (write_aig ex_aig) None) with
+   | ADone (r, _) _ => Aiger.whole_file r = Ok ex_aig | _ => False end).
+Proof. exact (conj aag_roundtrip_example aig_roundtrip_example). Qed.
